@@ -11,6 +11,9 @@
 #include <unistd.h>
 #include <string.h>
 
+#ifdef __cplusplus
+extern "C" {
+#endif
 static uint64_t vals[65536];
 static unsigned nvals, cur;
 static int loaded;
@@ -55,5 +58,12 @@ void vf_bad_assume(const char *what) { say("replay violates assumption: ", what)
 
 #ifndef VF_NO_MAIN
 void harness(void);
+#ifdef __cplusplus
+}
+#endif
 int main(void) { harness(); say("replay: ", "all assertions held"); return 0; }
+#else
+#ifdef __cplusplus
+}
+#endif
 #endif
